@@ -518,7 +518,10 @@ def _jobs_vs_machines(ctx, generate_raw):
         """depends on the *actual* job count: the `num_jobs` parameter / the value drawn
         for it.  (The range's maximum alone, `self.max_num_jobs`, is not the job count.)"""
         exprs, names = closure_exprs(e)
-        return "num_jobs" in names
+        # (a local renamed apart by the normaliser, `num_jobs__i3`, is still the job count)
+        import re as _re
+
+        return any(_re.sub(r"__[a-z]+\d+$", "", nm) == "num_jobs" for nm in names)
 
     randints = [
         n for n in own_nodes(generate.node)
@@ -553,8 +556,8 @@ def _jobs_vs_machines(ctx, generate_raw):
                     return x
         return None
 
-    flag_seen = any(isinstance(n, ast.If) and flag in ast.unparse(n.test) for n in own_nodes(generate.node)) or any(
-        isinstance(n, ast.IfExp) and flag in ast.unparse(n.test) for n in own_nodes(generate.node))
+    flag_seen = any(isinstance(n, ast.If) and (flag in ast.unparse(n.test) or flag in ctx.norm.xtext(generate, n.test)) for n in own_nodes(generate.node)) or any(
+        isinstance(n, ast.IfExp) and (flag in ast.unparse(n.test) or flag in ctx.norm.xtext(generate, n.test)) for n in own_nodes(generate.node))
     hc, lc_ = capped(hi), capped(lo)
     # the cap of the lower bound in the repaired code is min(lower, upper): it inherits
     # the job count only through the (already capped) upper bound
@@ -562,7 +565,7 @@ def _jobs_vs_machines(ctx, generate_raw):
     for c in closure_exprs(lo)[0]:
         for x in ast.walk(c):
             if isinstance(x, ast.Call) and isinstance(x.func, ast.Name) and x.func.id == "min" and any(
-                (isinstance(a, ast.Name) and a.id == "num_jobs") or (isinstance(a, ast.Name) and from_attr(a, "num_jobs_range") and not from_attr(a, "num_machines_range"))
+                (isinstance(a, ast.Name) and a.id.split("__")[0] == "num_jobs") or (isinstance(a, ast.Name) and from_attr(a, "num_jobs_range") and not from_attr(a, "num_machines_range"))
                 for a in x.args
             ):
                 lo_direct = x
@@ -630,7 +633,11 @@ def _iterator(ctx, base):
     ok = True
     n_ret = 0
     saw_stop = False
+    from .common import path_feasible
+
     for p in eng.paths(nxt, base):
+        if not path_feasible(p.events):
+            continue
         atoms = path_atoms(ctx, p.events)
         steps = [
             e for e in p.events
